@@ -265,9 +265,47 @@ fn apply(w: &mut World, op: &Op) -> Option<String> {
                     let hs: Vec<(String, Vec<u8>)> = b.headers().iter().map(|(n, v)| (n.as_str().to_string(), v.as_bytes().to_vec())).collect();
                     let snap = show(&b.verif_settings(), &hs);
                     return Some(match b.try_prepare() {
-                        Ok(p) => {
+                        Ok(mut p) => {
                             let ph: Vec<(String, Vec<u8>)> = p.headers().iter().map(|(n, v)| (n.as_str().to_string(), v.as_bytes().to_vec())).collect();
-                            format!("{};prep={}", snap, canon_headers(&ph))
+                            // "the request behaves according to these values": what goes on the wire is, field for
+                            // field and value for value, what the prepared request holds (seed C16-seed8: equal
+                            // values appended twice are two field lines)
+                            let log = crate::resp::install_script(vec![crate::script::Seg::Data(b"HTTP/1.1 204 No Content\r\n\r\n".to_vec())]);
+                            let _ = std::panic::catch_unwind(std::panic::AssertUnwindSafe(|| p.send().map(|_| ())));
+                            attohttpc::verif_hooks::clear_dial_factory();
+                            let written = log.lock().unwrap().written.clone();
+                            let trim = |v: &[u8]| -> Vec<u8> {
+                                let mut a = 0;
+                                let mut b = v.len();
+                                while a < b && (v[a] == b' ' || v[a] == b'\t') {
+                                    a += 1;
+                                }
+                                while b > a && (v[b - 1] == b' ' || v[b - 1] == b'\t') {
+                                    b -= 1;
+                                }
+                                v[a..b].to_vec()
+                            };
+                            let wire = match crate::spec::parse_request(&written) {
+                                Err(e) => format!("unparsable({})", e),
+                                Ok(pr) => {
+                                    let mut bad = String::new();
+                                    let mut names: Vec<&String> = ph.iter().map(|(n, _)| n).collect();
+                                    names.dedup();
+                                    for n in names {
+                                        if n == "host" {
+                                            continue; // set per connection by send()
+                                        }
+                                        let held: Vec<Vec<u8>> = ph.iter().filter(|(k, _)| k == n).map(|(_, v)| trim(v)).collect();
+                                        let sent: Vec<Vec<u8>> = pr.headers.iter().filter(|(k, _)| k == n).map(|(_, v)| trim(v)).collect();
+                                        if held != sent {
+                                            bad = format!("differs({}:held={}:sent={})", n, held.len(), sent.len());
+                                            break;
+                                        }
+                                    }
+                                    if bad.is_empty() { "ok".to_string() } else { bad }
+                                }
+                            };
+                            format!("{};prep={};wire={}", snap, canon_headers(&ph), wire)
                         }
                         Err(_) => format!("{};prep=e", snap),
                     });
@@ -406,7 +444,7 @@ fn spec_run(ops: &[Op]) -> Vec<String> {
             Op::Prep(i) => {
                 if let Some(slot) = builders.get_mut(*i) {
                     if let Some(b) = slot.take() {
-                        out.push(format!("{};prep={}", b.0.show(&b.1), canon_headers(&spec_prepare(b.0.sc[8] != 0, &b.1))))
+                        out.push(format!("{};prep={};wire=ok", b.0.show(&b.1), canon_headers(&spec_prepare(b.0.sc[8] != 0, &b.1))))
                     }
                 }
             }
